@@ -466,7 +466,7 @@ CLAIMS["C20"] = {"technique": "Lean 4 proof (element-wise agreement lifts to mir
 NOT_APPLICABLE = {}
 
 # the lint-logic layer (rule bodies translated from the source): appended to the claims of the properties it serves
-_BODIES = (" For the certificate lints whose CheckApplies/Execute lie inside the lint-logic fragment (149 today) the rule bodies themselves are "
+_BODIES = (" For the certificate lints whose CheckApplies/Execute lie inside the lint-logic fragment (195 of 366 today; type assertions on the public key, integer and big.Int expressions, labels, octet scans, external functions as parameters) the rule bodies themselves are "
            "translated from the Go source on every run (extract/bodies.go -> Generated/Bodies.lean) and the theorems of Props/Bodies.lean are re-decided "
            "on the regenerated terms; the `bodies` correspondence runs the real methods and the Lean evaluator on the same certificates.")
 for _pid, _tech, _text in [
@@ -490,3 +490,18 @@ for _pn in (1, 2, 3, 4, 6, 7, 8, 9, 11, 12, 13, 14, 15, 16, 18, 19):
     if _k in PROPS:
         PROPS[_k].setdefault("proofs", []).append("ZlProofs.Props.Pins%02d" % _pn)
         PROPS[_k].setdefault("obligations", []).append(ob_pins(_k))
+
+
+# this session's layers, appended to the claims of the properties they serve
+for _pid, _tech, _text in [
+        ("C02", " + seven CRL rule bodies modelled (no recovery net) with a direct-call correspondence", " CrlBodies: the seven modelled CRL bodies are total functions of the parsed list, characterised exactly (reasonNotCritical_exact, cabfReason_exact, uniqueSerial_exact)."),
+        ("C03", " + the framework's transitive reads of the linted object pinned (framework_reads_only_window_targets)", ""),
+        ("C06", " + CRL rule bodies modelled (crl_statuses, crl_warn_only_known)", ""),
+        ("C16", "", " C16Terms: size_bodies / modulus_bodies / exponent_bodies identify the regenerated Execute terms of eleven RSA lints; rsa_mod_2048_exact, div8_exact, notOdd_exact, smallFactor_exact, expOdd_exact, expSmall_exact, expOne_exact, expNeg_exact give the exact arithmetic condition for every RSA key view."),
+        ("C17", " + loop-carried state census of every loop reachable from a lint (F13, loop_state_reviewed)", " loop_state_reviewed: every value that survives from one loop iteration to the next in code reachable from a lint is a flag, a counter, a collected list, or in the committed review for the present text of its function."),
+        ("C20", " + RFC / CA-B-Forum label pairs and SAN/IAN octet-scan pairs on regenerated terms (NamesTerms, san_ian_octet_twins)", " label_bodies / br_agrees_with_rfc / rfc_error_implies_br_error on the regenerated terms; loop_state_reviewed as a premise.")]:
+    CLAIMS[_pid] = dict(CLAIMS[_pid], technique=CLAIMS[_pid]["technique"] + _tech, text=CLAIMS[_pid]["text"] + _text)
+_PIN = " The hand-written models are pinned to the text of the functions they were written from (modelled_functions.json, Props/PinsNN): a changed text re-opens the tie."
+for _pn in (1, 2, 3, 4, 6, 7, 8, 9, 11, 12, 13, 14, 15, 16, 18, 19):
+    _k = "C%02d" % _pn
+    CLAIMS[_k] = dict(CLAIMS[_k], text=CLAIMS[_k]["text"] + _PIN)
